@@ -195,6 +195,10 @@ def accessors (j : Json) : Except String Json := do
     ("center_indices", ratsJson (HdVerif.Gen.accCenterIndices sq a n)),
     ("nearest_center_indices", Json.arr ((HdVerif.Gen.accNearestCenterIndices sq a n).map fun (k : Int) => (k : Json)).toArray),
     ("affine", ratsJson (HdVerif.Gen.accAffine sq a n)),
+    ("center_position", ratsJson (HdVerif.Gen.accCenterPosition sq a n)),
+    ("get_affine", match (← getNatList j "conv") with
+      | [c0, c1, c2] => (match HdVerif.Gen.convAffine c0 c1 c2 a with | some l => ratsJson l | none => Json.null)
+      | _ => Json.null),
     ("left_handed", Json.bool (decide (HdVerif.Gen.accHandednessTest a < 0))),
     ("exact_sqrt", Json.bool ((HdVerif.Gen.accSpacing sq a n).all (fun x => decide (0 < x))))]))
 
